@@ -18,6 +18,11 @@ func init() {
 		Assumptions: commonAssumptions,
 		Rules:       []Rule{{"no-global-write", ruleNoSharedState}, {"zero-concurrency", ruleZeroConcurrency}},
 	})
+	register(&PropSpec{ID: "C18",
+		Explanation: "Decides on the SSA control-flow graphs of the reader/writer closures and of package main that (R7.1) the error of every I/O error source (Read/Write invokes, io.ReadFull, xml Decoder/Encoder, astits demuxer, os.Open/Create, scanner.Err, and every in-package function that transitively returns such an error) is tested or returned, and that from its non-nil edge every path ends in a return carrying a provably non-nil error (or log.Fatal in main) without rejoining normal flow, except for a frozen list of end-of-input sentinel conversions; (R7.2) after bufio.Scanner.Scan has returned false no possibly-nil-error return is reachable without consulting Err() (read failure and ErrTooLong are delivered only there); (R7.3) buffered sinks are flushed on success paths. Not decided: Close errors; that a short write is accompanied by an error (io.Writer contract).",
+		Assumptions: commonAssumptions,
+		Rules: []Rule{{"propagation", ruleErrPropagation}, {"scanner-err", ruleScannerErr}, {"flush", ruleFlush}},
+	})
 	register(&PropSpec{ID: "C09",
 		Explanation: "Structural clauses of Sync (Subtitles.Add): frame condition (writes only StartAt, EndAt and the item slice).",
 		Assumptions: commonAssumptions,
